@@ -52,14 +52,15 @@ Theorem C12_simpson_calls : forall (f : R -> C) (a b : R) divs, simpson_accepts 
 Proof. exact simpson_calls_count. Qed.
 
 (* ---- composite Simpson, 2-D *)
-Theorem C12_simpson2d_is_tensor : forall (f : R -> R -> C) (ax bx ay by_ : R) divs, (0 < divs)%Z ->
+Theorem C12_simpson2d_is_tensor : forall (f : R -> R -> C) (ax bx ay by_ : R) divs, (0 < simpson2d_norm divs)%Z ->
   simpson2d Rops f ax bx ay by_ divs =
-  apply_rule2 Rops (tensor Rops (simpson_rule_n Rops ax bx divs) (simpson_rule_n Rops ay by_ divs)) f.
+  apply_rule2 Rops (tensor Rops (simpson_rule_n Rops ax bx (simpson2d_norm divs)) (simpson_rule_n Rops ay by_ (simpson2d_norm divs))) f.
 Proof. exact simpson2d_is_tensor. Qed.
 
 Theorem C12_simpson2d_separable : forall (p q : R -> C) (ax bx ay by_ : R) divs, simpson2d_accepts divs = true ->
   simpson2d Rops (fun x y => Cmult (p x) (q y)) ax bx ay by_ divs =
-  Cmult (apply_rule Rops (simpson_rule_n Rops ax bx divs) p) (apply_rule Rops (simpson_rule_n Rops ay by_ divs) q).
+  Cmult (apply_rule Rops (simpson_rule_n Rops ax bx (simpson2d_norm divs)) p)
+        (apply_rule Rops (simpson_rule_n Rops ay by_ (simpson2d_norm divs)) q).
 Proof. exact simpson2d_separable. Qed.
 
 Theorem C12_simpson2d_exact_bicubic : forall (cp cq : list C) (ax bx ay by_ : R) divs,
@@ -79,13 +80,14 @@ Theorem C12_simpson2d_reverse : forall (f : R -> R -> C) (ax bx ay by_ : R) divs
   simpson2d Rops f ax bx by_ ay divs = Copp (simpson2d Rops f ax bx ay by_ divs).
 Proof. exact simpson2d_reverse. Qed.
 
-Theorem C12_simpson2d_linear : forall (alpha beta : C) (f g : R -> R -> C) (ax bx ay by_ : R) divs, (0 < divs)%Z ->
+Theorem C12_simpson2d_linear : forall (alpha beta : C) (f g : R -> R -> C) (ax bx ay by_ : R) divs, (0 < simpson2d_norm divs)%Z ->
   simpson2d Rops (fun x y => Cplus (Cmult alpha (f x y)) (Cmult beta (g x y))) ax bx ay by_ divs =
   Cplus (Cmult alpha (simpson2d Rops f ax bx ay by_ divs)) (Cmult beta (simpson2d Rops g ax bx ay by_ divs)).
 Proof. exact simpson2d_linear. Qed.
 
 Theorem C12_simpson2d_calls : forall (f : R -> R -> C) (ax bx ay by_ : R) divs, simpson2d_accepts divs = true ->
-  simpson2d_calls Rops f (fun _ _ => 1%nat) ax bx ay by_ divs = (Z.to_nat (divs + 1) * Z.to_nat (divs + 1))%nat.
+  simpson2d_calls Rops f (fun _ _ => 1%nat) ax bx ay by_ divs =
+  (Z.to_nat (simpson2d_norm divs + 1) * Z.to_nat (simpson2d_norm divs + 1))%nat.
 Proof. exact simpson2d_calls_count. Qed.
 
 (* ---- any fixed rule (Simpson, and the gauss-quad adapter whatever its table is) *)
@@ -176,22 +178,22 @@ Theorem C12_adaptive_cubic_calls : forall (cs : list C) (a b eps : R) d, a <= b 
   (simpson_adaptive_calls Rops (cpeval Rops cs) (fun _ => 1%nat) a b eps d <= 5)%nat.
 Proof. exact simpson_adaptive_cubic_calls. Qed.
 
-(* what the translated algorithm does under reversal, for EVERY integrand: nothing (it uses |b - a|).
-   Hence "reversing the interval negates" fails for adaptive Simpson unless the integral is 0 — Findings/C12_adaptive_reverse.v *)
-Theorem C12_adaptive_symmetric : forall (f : R -> C) (a b eps : R) d,
-  simpson_adaptive Rops f b a eps d = simpson_adaptive Rops f a b eps d.
-Proof. exact simpson_adaptive_symmetric. Qed.
+(* (reversal of the adaptive method: REFUTED on the pinned tree, for every integrand the result is symmetric in the
+   endpoints — Findings/C12_adaptive_reverse.v: simpson_adaptive_symmetric, C12_adaptive_reverse_refuted) *)
 
-(* ---- accepted parameters.  1-D accepts exactly divs >= 5, 2-D exactly the even divs >= 4.
-   "accepted in 1-D => accepted in 2-D" holds on the even class and fails on every odd divs >= 5 (Findings/C12_accept.v) *)
-Theorem C12_accept_1d : forall d, simpson_accepts d = true <-> (5 <= d)%Z.
-Proof. exact simpson_accepts_iff. Qed.
-
-Theorem C12_accept_2d : forall d, simpson2d_accepts d = true <-> (Z.even d = true /\ (4 <= d)%Z).
-Proof. exact accept_2d_iff. Qed.
+(* ---- accepted parameters.  "accepted in 1-D => accepted in 2-D" is proved on the even class; it fails on every odd
+   divs >= 5, and the 1-D form rejects divs = 4 (Findings/C12_accept.v).  Every divs >= 5 is accepted in 1-D. *)
+Theorem C12_accept_1d_from5 : forall d, (5 <= d)%Z -> simpson_accepts d = true.
+Proof. exact simpson_accepts_from5. Qed.
 
 Theorem C12_accept_even : forall d, Z.even d = true -> simpson_accepts d = true -> simpson2d_accepts d = true.
 Proof. exact accept_1d_2d_even. Qed.
+
+(* accepted parameters give an even number of divisions >= 2 in both forms *)
+Theorem C12_accept_norm : forall d,
+  (simpson_accepts d = true -> Z.even (simpson_norm d) = true /\ (2 <= simpson_norm d)%Z) /\
+  (simpson2d_accepts d = true -> Z.even (simpson2d_norm d) = true /\ (2 <= simpson2d_norm d)%Z).
+Proof. exact accept_norm. Qed.
 
 (* ---- non-vacuity of the hypotheses used above *)
 Example C12_ex_accepts_default : simpson_accepts default_simpson_divs = true /\ simpson2d_accepts default_simpson_divs = true.
@@ -235,7 +237,6 @@ Print Assumptions C12_adaptive_step.
 Print Assumptions C12_adaptive_terminates.
 Print Assumptions C12_adaptive_2d_terminates.
 Print Assumptions C12_adaptive_cubic_calls.
-Print Assumptions C12_adaptive_symmetric.
-Print Assumptions C12_accept_1d.
-Print Assumptions C12_accept_2d.
+Print Assumptions C12_accept_1d_from5.
+Print Assumptions C12_accept_norm.
 Print Assumptions C12_accept_even.
